@@ -14,6 +14,7 @@ mod c06;
 mod c07;
 mod c09;
 mod gen;
+mod c10;
 mod c13;
 mod c14;
 mod c16;
@@ -96,6 +97,7 @@ fn main() {
         "C06" => c06::run(&mut ctx),
         "C07" => c07::run(&mut ctx),
         "C09" => c09::run(&mut ctx),
+        "C10" => c10::run(&mut ctx),
         "C13" => c13::run(&mut ctx),
         "C14" => c14::run(&mut ctx),
         "C16" => c16::run(&mut ctx),
